@@ -170,6 +170,9 @@ def project_edges(edges):
     for e in edges:
         c, slot, p = e.split(">")
         vm = slot.split(":")[0]
+        if p.count("|") != 2:          # a runnable child of a clone source (never in a well formed graph): keep as is
+            out.add((c, slot, p, "?"))
+            continue
         pleft, pasg, pw = p.split("|")
         v = dict(a.split("=") for a in pasg.split(",") if "=" in a).get(vm, "?")
         out.add((c, slot, pleft, v))
